@@ -550,9 +550,73 @@ example : (erun EngCfg.code 2 [.poolRet 1 .ok, .send 1, .recv, .poolRet 0 .ok, .
 -- the caller cancels while a failure is in the channel: the cancellation error
 example : (erun EngCfg.code 2 [.poolRet 1 (.fail .provider (.err 1)), .send 1, .extCancel, .recv]).result = some ERes.ctx := by decide
 
+/-- "… it returns the cancellation error PROMPTLY": after the caller's cancel the goroutine of `Engine.Run` needs ONE
+step of its own - the `ctx.Done()` case of the select of its result loop, which is ready - whatever the pools are
+doing: a pool goroutine that is `running` may be anywhere inside `pool.Run`, also inside `warmUpGun`, the gun factory or
+the shared schedule factory, i.e. before `Pool.Run` looks at its context for the first time, and nothing here waits for
+it (`poolRet` is never needed). -/
+def C05_engine_cancel_prompt_statement (cfg : EngCfg) : Prop :=
+  ∀ (n : Nat) (cs : List EChoice), (erun cfg n cs).extC = true → (erun cfg n cs).result = none →
+    (estep cfg (erun cfg n cs) .mainCtx).result = some ERes.ctx
+
+theorem C05_engine_cancel_prompt (cfg : EngCfg) (h : cfg.mainSelects = true) : C05_engine_cancel_prompt_statement cfg :=
+  fun n cs hext hres => Proofs.C05.Sys.mainCtx_enabled cfg h n cs hext hres
+
+/-- a result loop that reads with a plain receive (and notices the cancel through the pool results only): one pool
+that is still inside its warm-up when the caller cancels -/
+theorem C05_engine_cancel_prompt_counterexample : ¬ C05_engine_cancel_prompt_statement ⟨true, false⟩ := by
+  intro h
+  have := h 1 [.extCancel] (by decide) (by decide)
+  revert this
+  decide
+
+/-- … and in that variant `Engine.Run` has no step of its own at all while every pool is inside its `Run`: it returns
+only when a component call it knows nothing about comes back -/
+theorem C05_engine_plain_receive_waits (cfg : EngCfg) (h : cfg.mainSelects = false) (n : Nat) (cs : List EChoice)
+    (hall : ∀ p ∈ (erun cfg n cs).pools, p = PoolG.running) (c : EChoice) (hc : c.isMain = true) :
+    estep cfg (erun cfg n cs) c = erun cfg n cs :=
+  Proofs.C05.Sys.plain_receive_stuck cfg h n cs hall c hc
+
+-- non-vacuity: two pools, the caller cancels while both are inside `pool.Run` (say: one in its warm-up, one shooting)
+example : (erun EngCfg.code 2 [.extCancel]).extC = true ∧ (erun EngCfg.code 2 [.extCancel]).result = none ∧
+    (estep EngCfg.code (erun EngCfg.code 2 [.extCancel]) .mainCtx).result = some ERes.ctx := by decide
+-- the plain-receive variant in the same state: neither step of the main loop is enabled; it goes on when a pool returns
+example : estep ⟨true, false⟩ (erun ⟨true, false⟩ 2 [.extCancel]) .mainCtx = erun ⟨true, false⟩ 2 [.extCancel] ∧
+    estep ⟨true, false⟩ (erun ⟨true, false⟩ 2 [.extCancel]) .recv = erun ⟨true, false⟩ 2 [.extCancel] ∧
+    (erun ⟨true, false⟩ 2 [.extCancel, .poolRet 1 .ctx, .send 1, .recv]).result = some ERes.ctx := by decide
+
+/-- `Pool.Run` ALONE is not prompt at every phase: "after the caller's cancel some step of the engine's own (a case of
+one of its selects) makes `Pool.Run` return" is false - for every variant of the code - while `Pool.Run` is in
+`warmUpGun` or in `runAsync` (gun factory, `WarmUp`, `Close` of the warm-up gun, the shared schedule factory): it
+looks at its context for the first time in its final select.  There only the component's return (`warm`, `sched`)
+moves it.  That is why the promptness of a run rests on `Engine.Run`'s own select (`C05_engine_cancel_prompt`). -/
+def Choice.isEngine : Choice → Bool
+  | .awaitProv | .awaitAgg | .awaitStart | .awaitRun | .errDeliver | .errSuppress | .mainCancel | .mainClosed => true
+  | _ => false
+
+def C05_pool_cancel_prompt_statement (cfg : Cfg) : Prop :=
+  ∀ cs : List Choice, (run cfg cs).extC = true → (run cfg cs).result = none →
+    ∃ c, Choice.isEngine c = true ∧ (step cfg (run cfg cs) c).result.isSome = true
+
+theorem C05_pool_cancel_prompt_counterexample (cfg : Cfg) : ¬ C05_pool_cancel_prompt_statement cfg := by
+  intro h
+  obtain ⟨c, hc, hr⟩ := h [.extCancel] (by cases cfg; rfl) (by cases cfg; rfl)
+  cases c <;> first | (simp [Choice.isEngine] at hc; done) | (revert hr; rcases cfg with ⟨_ | _, _ | _, _ | _⟩ <;> decide)
+
+/-- what holds: once `Pool.Run` is in its final select the cancel case is ready (and before that it needs the
+component calls of `warmUpGun` / `runAsync` to return, nothing else: `C05_cancel_returns`) -/
+theorem C05_pool_cancel_prompt_partial (cfg : Cfg) (cs : List Choice) :
+    (run cfg cs).extC = true → (run cfg cs).main = .selecting →
+      ∃ c, Choice.isEngine c = true ∧ (step cfg (run cfg cs) c).result.isSome = true :=
+  fun hext hm => ⟨.mainCancel, rfl, by rw [C05_cancel_prompt cfg cs hext hm]; rfl⟩
+
 /-- the source as it is now selects (regenerated paths of `Engine.Run`) -/
 theorem C05_source_engine_goroutines_exit : C05_engine_goroutines_exit_statement Bridge.C05Engine.srcEngCfg :=
   C05_engine_goroutines_exit _ (by decide)
+
+/-- … in both places: the result loop of the source is a select with the engine context as its second case -/
+theorem C05_source_engine_cancel_prompt : C05_engine_cancel_prompt_statement Bridge.C05Engine.srcEngCfg :=
+  C05_engine_cancel_prompt _ (by decide)
 
 end Sys
 
